@@ -148,10 +148,12 @@ pub struct DepCase {
     pub text: String,
 }
 
-const PATS: [&str; 20] = [
+const PATS: [&str; 26] = [
     "mutt-[0-9]*", "pkg>=1.0", "pkg>=1<2", "{a,b}-[0-9]*", "foo-1.0", "", "pkg>1>2", "foo-[0-9", "{a,b", "a}b{", "pkg<1<2<3", "***", "é>=1", "p5-*",
     // other glob dialects' syntax (POSIX classes, '^' negation, escapes): ordinary characters here
     "foo-[[:digit:]]*", "[:alpha:]", "foo-[^0-9]*", "foo\\:bar", "{a:b,c}-1", "foo-[0-9:]*",
+    // the customary "any version" spellings
+    "pkg>=0", "py311-setuptools>=0", "foo>=0.0", "foo>0", "foo-*", "foo-[0-9]*{,nb*}",
 ];
 const PATHS: [&str; 12] = [
     "../../mail/mutt", "mail/mutt", "cat//pkg/", "", "mutt", "../mail/mutt", "/mail/mutt", "a/b/c", "./a/b", "../../a/b/", "../../../a/b", "a/./b",
